@@ -29,6 +29,23 @@ CHAIN_LOOPS = ["parsec_hash_table_nolock_find_in_old_tables.1", "parsec_hash_tab
                "parsec_hash_table_nolock_remove_handle.0", "parsec_hash_table_nolock_find_handle.0", "parsec_hash_table_for_all.2"]
 
 
+def old2_job(op, gens, linkmask=3, timeout=900):
+    """find / remove through the old-table walk with TWO older generations behind the current one (3 generations of 2/4/8
+    buckets, 3 items).  The generation of every item and the set of linked old generations are fixed per cbmc process
+    (symbolic ones do not finish with 3 generations); keys, 64-bit hashes, the bucket function (hence which items share a
+    bucket and whether the hit is first in its chain), hint and max bits stay symbolic."""
+    tag = "".join("x" if g < 0 else str(g) for g in gens)
+    j = map_job(op, 3, 1, ni=len(gens), timeout=timeout)
+    j.name = "%s.old2.i%s.l%d" % (op, tag, linkmask)
+    j.defines["GENS"] = "{" + ",".join(str(g) for g in gens) + "}"
+    j.defines["LINKMASK"] = linkmask
+    j.mem_gb = 3
+    j.bounded = ("pre-state = every well-formed table with 3 generations of 2/4/8 buckets, items placed in generations %s (0 = oldest, "
+                 "2 = current), old generations linked: mask %d; keys, hashes, bucket function (all bucket-sharing and chain-position "
+                 "patterns), hint, max bits symbolic" % (list(gens), linkmask))
+    return j
+
+
 def map_job(op, ng, nb0, ni=3, timeout=900, env_pre=0):
     top = 1 << (nb0 + ng)            # buckets of a generation created by the call
     us = {l: ni + 2 for l in CHAIN_LOOPS}
@@ -68,6 +85,21 @@ def jobs(tier):
         # status ERROR after ~8 min even with 1 item and 12 GB), so it is not part of any tier
         for ng, nb0 in ([(1, 1), (2, 1)] if full and op in ("remove", "insert_impl") else [(1, 1)]):
             J.append(map_job(op, ng, nb0, timeout=to, env_pre=1))
+    # walk through TWO old generations (hit first / not first in its chain, in the first / second old table, buckets of the
+    # old tables holding 0..3 items): one process per placement of the items
+    if full:
+        import itertools
+        tuples = list(itertools.product((0, 1, 2), repeat=3))
+        for op in ("find", "remove"):
+            for g in tuples:
+                J.append(old2_job(op, g, 3, timeout=to))
+            for g, m in (((1, 1, 2), 2), ((1, 2, 1), 2), ((0, 0, 2), 1), ((0, 2, 0), 1)):   # one old generation emptied and unlinked
+                J.append(old2_job(op, g, m, timeout=to))
+    else:
+        for g in ((1, 0, 0), (0, 1, 1), (1, 0, 2), (0, 0, 1)):
+            J.append(old2_job("find", g, 3, timeout=to))
+        for g in ((1, 0, 0), (0, 1, 1)):
+            J.append(old2_job("remove", g, 3, timeout=to))
     for nb in ((1, 2) if full else (1,)):
         J.append(Job("init.b%d" % nb, "h_ht.c", entry="h_init", defines={"NB0": nb, "NG": 1, "NI": 3}, overlay=REHASH_OVERLAY,
                      unwind=(1 << (nb + 1)) + 1, unwindset={l: 5 for l in CHAIN_LOOPS}, object_bits=10,
@@ -97,6 +129,10 @@ META = dict(
                 "lock_bucket(_handle); nolock_find/remove/insert(_handle); unlock_bucket(_handle); for_all on a quiescent table calls back each "
                 "stored element exactly once with its base address; hash_tables_init + init establish wf with the registered MCA values; wf is "
                 "re-established by every operation (so it is an inductive invariant: history length is unbounded, the shape is bounded).  "
+                "Jobs *.old2.* run find / remove on tables with the current generation and TWO older ones (hit first or not first in its "
+                "chain, in the first or second old table, old buckets holding 0..3 items) and state the same whole-view contract: the hit migrates to "
+                "the current generation, every other stored item stays exactly once where it was, cur_len of every bucket of every generation equals "
+                "its chain length, used_buckets / unlinking bookkeeping holds.  "
                 "Lock discipline (ghost state fed by the verif_rg.h lock hooks and ghost stubs of the rwlock): bucket locks are taken only under "
                 "the read lock, first_item/cur_len of a bucket are unchanged when its lock is taken and after it is released (i.e. buckets, old "
                 "generations included, are modified only under their own lock), nolock_* return holding exactly the caller's read lock and newest "
@@ -123,20 +159,22 @@ META = dict(
                  "WHILE I hold the read lock (other readers working on other buckets, concurrent unlinking of old generations by CAS on "
                  "head->next) is not examined",
                  "callers insert a key only when it is absent (unique keys) and nolock_* are called between lock_bucket(_handle) and unlock of the same key",
-                 "shape bound: <= 3 items (quick: 2 items in find/remove with 2 generations), generations of 2..16 buckets; find/remove/nolock_*/for_all from tables of 1 or 2 generations, insert_impl/resize also from 3 generations (thorough); chains <= 3",
+                 "shape bound: <= 3 items (quick: 2 items in find/remove with 2 generations), generations of 2..16 buckets; find/remove through two old generations (3 generations of 2/4/8 buckets) only for placements of the items fixed per process (jobs *.old2.*); otherwise find/remove/nolock_*/for_all from tables of 1 or 2 generations, insert_impl/resize also from 3 generations (thorough); chains <= 3",
                  "parsec_hash_tables_init succeeded before parsec_hash_table_init (otherwise max_collisions_hint / max_table_nb_bits stay uninitialised)"],
 )
 MANIFEST = dict(
     category="other",
     text="Inductive-step contracts (map view over all generations + well-formedness invariant + ghost lock discipline) on the real hash-table "
-         "code, discharged by CBMC for every well-formed table of a bounded shape (<= 3 items, 1-2 generations; insert/resize up to 3 generations in the thorough tier; bucket "
+         "code, discharged by CBMC for every well-formed table of a bounded shape (<= 3 items, 1-2 generations; find/remove also across two old generations for enumerated item placements; insert/resize up to 3 generations in the thorough tier; bucket "
          "function and 64-bit hashes arbitrary, hint and max bits symbolic): sequential map semantics of insert/find/remove/nolock_*/resize/"
          "for_all/init including migration from older generations; unbounded in history length, bounded in shape, concurrency only through the "
          "lock discipline -> 'other', not 'proof'.",
     note="Not decided: linearizability under real interleavings (argued from the lock discipline; rwlock is C33; only 'another thread resized' at my lock "
-         "acquisitions is modelled as interference); concurrent unlinking of emptied generations; tables with more than 3 items / 16 buckets; find/remove (migration, unlinking) across MORE THAN ONE old generation "
-         "(find.g3, remove.g3 and find.pre_resize.g2 are NOT in any tier: the back end runs out of memory / reports ERROR; only "
-         "remove.pre_resize.g2 covers a removal behind two newer generations, thorough tier); 1..16 threads are not enumerated (rely/guarantee style, one thread + environment); fini and stat are not under contract; "
+         "acquisitions is modelled as interference); concurrent unlinking of emptied generations; tables with more than 3 items / 16 buckets; find/remove across TWO old generations are decided only for fixed placements (jobs *.old2.*: generation of each of the 3 "
+         "items and the set of linked old generations fixed per process - quick 6 placements, thorough all 27 placements over 3 generations "
+         "plus 4 with an unlinked generation, for find and for remove; bucket sharing, chain position of the hit, keys, hashes symbolic); the "
+         "fully symbolic 3-generation jobs (find.g3, remove.g3, find.pre_resize.g2) do not finish and are in no tier; more than two old "
+         "generations are not examined; 1..16 threads are not enumerated (rely/guarantee style, one thread + environment); fini and stat are not under contract; "
          "universal_rehash is abstracted by its contract (range proved, functionality by inspection).",
     technique="inductive data-structure invariant + pre/post contracts + ghost lock discipline on the real parsec_hash_table.c, discharged by "
               "CBMC (shape-bounded); callee universal_rehash replaced by its contract via the driver's overlay; contract discharged separately",
